@@ -7,7 +7,7 @@ against that worktree (VERIF_REPO) and records everything in /verif/seeded/<name
 import json, os, shutil, subprocess, sys, time
 pid, src = sys.argv[1], os.path.abspath(sys.argv[2])
 suite = "--suite" in sys.argv
-rnd = "r2-" if "/mut2_" in src else ("r3-" if "/mut3_" in src else "")
+rnd = "r2-" if "/mut2_" in src else ("r3-" if "/mut3_" in src else ("r4-" if "/mut4_" in src else ""))
 name = f"{pid}-{rnd}{os.path.basename(src.rstrip('/'))}"
 if src.startswith("/verif/seeded/"):
     name = os.path.basename(src.rstrip("/"))  # re-evaluation in place
